@@ -2550,6 +2550,10 @@ send_evrrul(int whither, echs_const_evstrm_t s)
 			} else {
 				cand = this[i].cch[this[i].rdi];
 			}
+			if (UNLIKELY(echs_nul_instant_p(cand))) {
+				/* this rule is exhausted, it has no say */
+				continue;
+			}
 			if (echs_instant_lt_p(cand, e.from)) {
 				e.from = cand;
 			} else if (echs_nul_instant_p(e.from)) {
